@@ -199,7 +199,7 @@ class MPS:
             v = v * s[:, None]
             # assign MPS tensor at current site i, transposing physical dimension to the front
             mps.A[i] = u.reshape((Dleft, d, len(s))).transpose((1, 0, 2))
-            mps.qD[i + 1] = len(s) * [0]
+            mps.qD[i + 1] = np.zeros(len(s), dtype=int)
         assert v.shape == (1, 1)
         # include scalar factor in last MPS tensor
         mps.A[-1] *= v[0, 0]
